@@ -41,7 +41,7 @@ theorem C03_finish_wf (scan : Nat → ScanRes) (raw m : Module) (h : finish scan
     · left; rfl
   have hlen : p.len.toNat ≤ xmpMaxModLength := by
     rcases hplen with h' | h' <;> rw [h'] <;> omega
-  obtain ⟨s1, s2, s3, s4, s5, s6, s7, s8, s9⟩ := scanCore_spec scan _ hlen st hst
+  obtain ⟨s1, s2, s3, s4, s5, s6, s7, s8, s9, _, _⟩ := scanCore_spec scan _ hlen st hst
   have hseq := sequences_of (m := m) (st := st) (len := p.len.toNat) (by subst hm; rfl) hlen
     (by subst hm; rfl) (by subst hm; rfl) (by subst hm; rfl) s1 s2 s3 s4 s5 s6 s7 s8 s9
   have hcounts : countsOK m = true := by
@@ -124,6 +124,49 @@ theorem C03_sequences (scan : Nat → ScanRes) (raw m : Module) (h : finish scan
     | some c =>
       refine ⟨c, rfl, ?_⟩
       simpa [hq] using this
+
+/-- **C03_sequences_own**: the first sequence starts at order 0, and the entry
+point of sequence `i` belongs to sequence `i` (so `xmp_set_position` onto an entry
+point selects that sequence's scan data). -/
+theorem C03_sequences_own (scan : Nat → ScanRes) (raw m : Module) (h : finish scan raw = .ok m) (hl : 0 < m.len) :
+    (m.seqData.head?).map (·.1) = some 0
+    ∧ ∀ i (hi : i < m.seqData.length), m.seqCtl[(m.seqData[i]).1]? = some i := by
+  obtain ⟨hg, p, hp, hs⟩ := finish_ok h
+  obtain ⟨_, _, hcase⟩ := prepareScan_ok hp
+  obtain ⟨st, hst, hm⟩ := scanSequences_ok hs
+  have l1 := @clampC_ge raw.len 0 xmpMaxModLength (by omega)
+  have l2 := @clampC_le raw.len 0 xmpMaxModLength (by omega)
+  have hplen : p.len = clampC raw.len 0 xmpMaxModLength ∨ p.len = 0 := by
+    rcases hcase with hc | ⟨_, _, hc⟩ <;> subst hc
+    · right; rfl
+    · left; rfl
+  have hlen : p.len.toNat ≤ xmpMaxModLength := by
+    rcases hplen with h' | h' <;> rw [h'] <;> omega
+  obtain ⟨_, _, s3, s4, s5, _, _, s8, _, s10, s11⟩ := scanCore_spec scan _ hlen st hst
+  have hmlen : m.len = p.len := by subst hm; rfl
+  have hd : m.seqData = st.eps.zip st.times := by subst hm; rfl
+  have hc : m.seqCtl = st.ctl := by subst hm; rfl
+  have hpos : 0 < p.len.toNat := by omega
+  constructor
+  · rw [hd]
+    cases he : st.eps with
+    | nil => rw [he] at s10; simp at s10
+    | cons e es =>
+      rw [he] at s10 s3
+      cases ht : st.times with
+      | nil => rw [ht] at s4; simp at s3 s4; omega
+      | cons t ts => simp at s10; subst s10; simp
+  · intro i hi
+    rw [hd] at hi
+    have hi1 : i < st.eps.length := by rw [List.length_zip] at hi; omega
+    have hel : st.eps[i] < p.len.toNat := s5 hpos _ (List.getElem_mem hi1)
+    have hv := s11 i hi1 hel
+    have hfst : (m.seqData[i]).1 = st.eps[i] := by
+      simp only [hd, List.getElem_zip]
+    rw [hfst, hc]
+    have hlt : st.eps[i] < st.ctl.length := by omega
+    simp only [List.getD_eq_getElem?_getD, List.getElem?_eq_getElem hlt, Option.getD_some] at hv
+    rw [List.getElem?_eq_getElem hlt, hv]
 
 /-- The `while (1)` loop of `libxmp_scan_sequences` is modelled with `len + 1`
 units of fuel; it always leaves through one of the C's two `break` conditions
